@@ -31,7 +31,25 @@ def canon(tok):
         return "SUB(%s,%s)" % (canon(tok[2][0]), tok[2][1])
     if k == "BUF":
         ents = []
-        for pos, w, t in tok[2]:
+        lay = list(tok[2])
+        # two neighbouring bytes that are byte 0 and byte 1 of one u16's big-endian encoding are that encoding
+        merged = []
+        skip = set()
+        for i, (pos, w, t) in enumerate(lay):
+            if i in skip:
+                continue
+            if t[0] == "BYTE" and str(t[2]).startswith("be[0]:") and str(pos).isdigit():
+                for j, (pos2, w2, t2) in enumerate(lay):
+                    if j != i and t2[0] == "BYTE" and str(t2[2]) == "be[1]:" + str(t[2])[6:] and str(pos2).isdigit() and int(pos2) == int(pos) + 1:
+                        merged.append(("%d..%d" % (int(pos), int(pos) + 2), 2, ("BE", 2, str(t[2])[6:])))
+                        skip.add(j)
+                        break
+                else:
+                    merged.append((pos, w, t))
+            else:
+                merged.append((pos, w, t))
+        lay = [x for n_, x in enumerate(merged)]
+        for pos, w, t in [e_ for e_ in lay if not (e_[2][0] == "BYTE" and str(e_[2][2]).startswith("be[1]:") and any(m[2][0] == "BE" and m[0].startswith(str(int(e_[0]) - 1) + "..") for m in lay if str(e_[0]).isdigit()))]:
             if pos == "init" and t[0] == "FILL" and t[2] == 0:
                 continue
             ents.append("%s:%s" % (pos, canon(t)))
@@ -395,6 +413,14 @@ def closed_world(chk, F, sessions, tag, prefix):
         wire = [c for c in cls if c in ("PBLC", "MESG", "LEAF", "INTR", "OTSKEY", "PRNG", "TOPSEED0", "TOPSEED1", "TOPSEED2", "DAUX", "HMAC-IPAD", "HMAC-OPAD")]
         if wire:
             okst = st in FRESH_STARTS or (st or "").startswith("after:")
+            if (st or "").startswith("param:"):
+                # a hasher borrowed from the caller: fresh if every caller hands over a hasher that has absorbed nothing yet
+                short_name = core.strip_generics(f.path).rsplit("::", 1)[-1]
+                handovers = [(st2, it2) for f2, e2, b2, st2, it2, cl2, r2 in sessions
+                             if any(t == "->%s(mut)" % short_name for t, _ in it2)]
+                okst = bool(handovers) and all((st2 in FRESH_STARTS or (st2 or "").startswith("after:")) and
+                                               not [t for t, _ in it2[: [t for t, _ in it2].index("->%s(mut)" % short_name)] if not t.startswith("->")]
+                                               for st2, it2 in handovers)
             if st == "captured":
                 # a hasher captured by a closure: fresh at every call if each session of the closure ends by resetting it
                 ends = [e2 for f2, e2, b2, st2, it2, cl2, r2 in sessions if f2.path == f.path]
@@ -426,6 +452,12 @@ SERIAL_LAYOUTS = {
     "hss-signature": [({"BE32"}, False), ({"S:signed-public-key"}, True), ({"S:lms-signature"}, False)],                    # u32str(Nspk) || signed_pub_key[0..Nspk) || sig[Nspk]
     "hss-public-key": [({"BE32"}, False), ({"S:lms-public-key"}, False)],                                                   # u32str(L) || pub[0]
     "digest-with-checksum": [(N, False), (lambda t: t.startswith("["), False), (lambda t: t.startswith("["), False)],       # Q || Cksm(Q) as two bytes
+}
+
+
+# equivalent spellings of a layout (same bytes): the two checksum bytes appended as `checksum.to_be_bytes()`
+SERIAL_LAYOUTS_ALT = {
+    "digest-with-checksum#be16": [(N, False), ({"BE16"}, False)],
 }
 
 
@@ -461,7 +493,8 @@ def classify_serialisers(F):
                 cs.append(row)
             if pending:
                 continue
-            for role, pat in SERIAL_LAYOUTS.items():
+            for role, pat in list(SERIAL_LAYOUTS.items()) + list(SERIAL_LAYOUTS_ALT.items()):
+                role = role.split("#")[0]
                 if all(match(r, pat) for r in cs):
                     roles[p] = role
                     changed = True
